@@ -80,3 +80,19 @@ Section Spec.
   Definition no_location_added (r r' : jv) : Prop :=
     forall L, sub r' L <> None -> sub r L <> None.
 End Spec.
+
+(* The model (like the code) follows a json() hop through the first match only and writes the
+   re-encoded document to every match: the theorems cover the arguments whose part in front of
+   each hop denotes at most one location (recorded finding C15-wildcard-before-hop otherwise). *)
+Section Single.
+  Variable parse : bytes -> option jv.
+  Variable b64d : bytes -> option bytes.
+
+  Inductive SingleHops : list (list frag) -> jv -> Prop :=
+  | SH_last p v : SingleHops [p] v
+  | SH_hop p q rest v :
+      (forall L L', Denotes p v L -> Denotes p v L' -> L = L') ->
+      (forall L t inner, Denotes p v L -> sub parse b64d v L = Some (JStr t) -> decode parse b64d t = Some inner ->
+                         SingleHops (q :: rest) inner) ->
+      SingleHops (p :: q :: rest) v.
+End Single.
